@@ -9,6 +9,7 @@
 //!          p<tok>        is the sender of <tok> still held by the map -> 1 | 0
 //!          F<n>.<rid0>   n allocations with rid = tok = rid0+i   (expanded, n results)
 //!          D<k>.<start>.<stride>  k lookups of (start + i*stride) mod 32768 (expanded)
+//!          (runs of >= 3 results s<k> s<k+1> … are written S<k>.<count>)
 //! final    H=sid:rid:tok,…  into_handlers (sorted)   W=idx:word,…  non-zero bitmap words
 //!          R=rid:sid,…  request_to_stream   O=sid,…  orphanage keys   B=len(by_orphaning_times)
 //!          L=len(bitmap)
@@ -77,6 +78,32 @@ fn apply(m: &mut VerifHandlerMap, op: Op) -> String {
     }
 }
 
+/// Runs of >= 3 allocation results with consecutive ids `s<k> s<k+1> …` are written `S<k>.<count>`
+/// (the driver applies the same compression to the model's results).
+fn compress(v: Vec<String>) -> Vec<String> {
+    let sid = |t: &String| -> Option<u64> {
+        if t.len() > 1 && t.starts_with('s') { u64::from_str_radix(&t[1..], 16).ok() } else { None }
+    };
+    let mut out = Vec::with_capacity(v.len());
+    let mut i = 0;
+    while i < v.len() {
+        if let Some(k) = sid(&v[i]) {
+            let mut j = i + 1;
+            while j < v.len() && sid(&v[j]) == Some(k + (j - i) as u64) {
+                j += 1;
+            }
+            if j - i >= 3 {
+                out.push(format!("S{:x}.{:x}", k, j - i));
+                i = j;
+                continue;
+            }
+        }
+        out.push(v[i].clone());
+        i += 1;
+    }
+    out
+}
+
 fn join<T>(v: &[T], f: impl Fn(&T) -> String) -> String {
     if v.is_empty() { "-".into() } else { v.iter().map(f).collect::<Vec<_>>().join(",") }
 }
@@ -93,10 +120,11 @@ fn run_case(case: &str) -> String {
             Err(_) => {
                 out.push("panic".into());
                 out.push("X=panic".into());
-                return out.join(" ");
+                return compress(out).join(" ");
             }
         }
     }
+    let mut out = compress(out);
     let fin = catch(std::panic::AssertUnwindSafe(|| {
         let snap = m.snapshot();
         let h = m.into_handlers();
@@ -364,7 +392,8 @@ fn main() {
             1 => r.range(1, 64),
             2 => 64 * r.range(1, 12),
             3 => 64 * r.range(1, 12) - 1,
-            _ => r.range(1, 800),
+            4 => r.range(1, 800),
+            _ => r.range(1, 130),
         };
         let len = r.range(1, 60) as usize;
         cases.push(gen_random_case(&mut r, "B", prefill, len));
